@@ -58,6 +58,7 @@ DEFAULT_PROFILE = {
     "flat": False,                 # C18: only int/bits/data, no modifiers
     "p_backward_at": 0.25,
     "p_describe": 0.0,             # length = Int(n).describe(AutoLength(next)); next = Data(length)
+    "p_elem_index": 0.12,          # repeated Data whose element size is len(pkt.<the list itself>) + c
     "p_implicit_ref": 0.25,        # a sub-packet declared by a bare packet class / instance in the class body
     "p_share_table": 0.3,          # a second selector of a declaration re-uses the options table object of an earlier one
     "p_proto_kept": 0.3,           # the prototype instance of a Ref is kept in a variable and modified after the class statement
@@ -487,6 +488,12 @@ class Gen:
                 f = self.gen_sel(fname, ints, depth)
             if wrap == "rep":
                 f["rep"] = self.gen_rep(ints, f, fields)
+                if f["t"] == "data" and "count" in f["rep"] and "default" not in f and rng.random() < self.p["p_elem_index"]:
+                    # the size of the i-th element depends on how many elements were parsed so far (docs/08: the list is "created
+                    # at the begin of the parsing and updated later", so an element callable may use len(pkt.<list>) as running index)
+                    f["mode"] = "dyn"
+                    f.pop("marker", None), f.pop("include", None), f.pop("rx", None), f.pop("noconsume", None)
+                    f["size"] = {"form": "lambda", "e": ["b", "add", ["u", "len", ["f", fname]], ["c", rng.choice([0, 1, 1])]]}
                 if rng.random() < self.p["p_default"] * 0.5 and f["t"] == "int":
                     f["rep"]["default"] = [1, 2][: rng.randint(1, 2)]
             elif wrap == "opt":
